@@ -290,7 +290,7 @@ pub fn run(tier: &str, seed: u64) -> i32 {
     let d = DArms { max_depth: 2 };
     let budget = Budget {
         max_depth: if thorough { 2 } else { 1 },
-        wall: Duration::from_secs(if thorough { 900 } else { 40 }),
+        wall: Duration::from_secs(if thorough { 900 } else { 150 }),
         max_states: 5_000_000,
     };
     report.add(explore(&d, &budget, seed, |s, ctx| {
@@ -303,7 +303,7 @@ pub fn run(tier: &str, seed: u64) -> i32 {
     let g = quick_graph(if thorough { 3 } else { 2 });
     let budget = Budget {
         max_depth: g.max_edges as u32,
-        wall: Duration::from_secs(if thorough { 900 } else { 40 }),
+        wall: Duration::from_secs(if thorough { 900 } else { 150 }),
         max_states: 5_000_000,
     };
     report.add(explore(&g, &budget, seed, |s, ctx| {
